@@ -81,6 +81,10 @@ type NetSpec struct {
 	// rises at the maximum rate whatever the timestamps are. With Calm, fast and
 	// slow branches really get different difficulties.
 	Calm bool `json:"calm,omitempty"`
+	// Oak > 1 moves the Oak difficulty hardfork to that height: below it the
+	// target is adjusted every 500 blocks from the timestamp of the ancestor
+	// 1000 blocks back, which the store has to supply (AncestorTimestamp).
+	Oak int `json:"oak,omitempty"`
 }
 
 // Network builds the consensus network and the genesis block of a case.
@@ -108,6 +112,14 @@ func (ns NetSpec) Network() (*consensus.Network, types.Block) {
 	n.HardforkOak.FixHeight = 1
 	n.HardforkASIC.Height = 1
 	n.HardforkFoundation.Height = 1
+	if ns.Oak > 1 {
+		n.HardforkOak.Height = uint64(ns.Oak)
+		n.HardforkOak.FixHeight = uint64(ns.Oak) + 3
+		n.HardforkASIC.Height = uint64(ns.Oak) + 5
+		n.HardforkASIC.OakTime = 10 * time.Second
+		n.HardforkASIC.OakTarget = n.InitialTarget
+		n.HardforkFoundation.Height = uint64(ns.Oak) + 7
+	}
 	// genesis far in the past so wall-clock future checks never trigger
 	n.HardforkOak.GenesisTimestamp = time.Date(2020, time.January, 1, 0, 0, 0, 0, time.UTC)
 	genesis.Timestamp = n.HardforkOak.GenesisTimestamp
